@@ -26,6 +26,9 @@ const svc = "/sc.go.test.TestApi/"
 var opTimeout = 3 * time.Second
 var deadlineAfter = 400 * time.Millisecond
 
+// patience: how long a helper goroutine of a returned handler is given to notice that its context has ended.
+var patience = 500 * time.Millisecond
+
 // after a few ops that hung for the full bound the hang is established: later waits are kept short so
 // that a broken tree is reported in minutes, not hours
 var hangs atomic.Int32
@@ -138,9 +141,11 @@ type outcome struct {
 	timedOut bool
 	skip     bool // the machine was too slow for a deadline script: nothing is concluded
 	leak     int  // goroutines above the baseline after the call (wrapper only)
-	call     *call
-	sentReq  []proto.Message // client's own request objects
-	gotRes   []proto.Message // client's own response objects
+	// helperLeft: the handler has returned and the call is over, but the handler's context has not ended (Watch)
+	helperLeft bool
+	call       *call
+	sentReq    []proto.Message // client's own request objects
+	gotRes     []proto.Message // client's own response objects
 }
 
 func (o outcome) text() string { return strings.Join(o.client, ",") + "|" + o.server }
@@ -212,7 +217,8 @@ func runCase(ep *endpoint, srv *scripted, c scase, measureLeak bool) outcome {
 			info.newRes, info.resN = via.newRes, via.resN
 		}
 	}
-	cl := &call{ops: parseSrv(c.Srv), fin: parseFin(c.Fin), amp: c.Amp, reuse: c.Reuse, pass: c.Pass, shape: c.Shape, gate: make(chan struct{}), done: make(chan struct{})}
+	cl := &call{ops: parseSrv(c.Srv), fin: parseFin(c.Fin), amp: c.Amp, reuse: c.Reuse, pass: c.Pass, shape: c.Shape, gate: make(chan struct{}), done: make(chan struct{}),
+		watch: c.Watch, released: make(chan struct{})}
 	id := srv.register(cl)
 	defer srv.calls.Delete(id)
 	var out outcome
@@ -526,6 +532,19 @@ func runCase(ep *endpoint, srv *scripted, c scase, measureLeak bool) outcome {
 			case <-time.After(opTimeout):
 				cl.logf("handler-not-finished")
 			}
+		}
+	}
+	if c.Watch && started && !aborted {
+		// the call has finished and the handler has returned: what the handler tied to its context must be over too,
+		// while the CALLER's context is still live (it is cancelled only when this function returns)
+		select {
+		case <-cl.done:
+			select {
+			case <-cl.released:
+			case <-time.After(patience):
+				out.helperLeft = true
+			}
+		default:
 		}
 	}
 	out.server = cl.serverLog()
